@@ -83,4 +83,29 @@ var propSpecs = []propSpec{
 		assume:  []string{"regexp.Compile on a symbolic expression is an uninterpreted, consistent function of its bytes that never panics"},
 		stubs:   append(append([]string{}, stdStubs...), "strings.ToLower: exact for ASCII; regexp.QuoteMeta, strings.TrimSpace: byte-wise models; mime.ParseMediaType on concrete headers: the real function"),
 	},
+	{
+		id: "C08",
+		runs: []runSpec{
+			{dir: "mux", entry: "ZZC08Head", quick: []int{3}, thorough: []int{3}},
+			{dir: "mux", entry: "ZZC08Hist", quick: []int{1, 2, 3}, thorough: []int{1, 2, 3, 4}, mapRev: true},
+			{dir: "mux", entry: "ZZC08Reg", quick: []int{7, 107}, thorough: []int{8, 108}},
+		},
+		covers:  []string{"head-vs-get", "content-length", "history", "registered", "rejected"},
+		bounds:  "HEAD vs GET: every handler behaviour of <= 3 Write calls whose sizes are symbolic 64-bit ints in [0,300000] (decided by z3, not enumerated), with/without an explicit WriteHeader of a symbolic status in [100,599], 0-2 headers set before the response starts, parameter value <= 2 arbitrary bytes; histories: every sequence of <= 3 operations from 12 (Handle of GET/POST/DELETE, Remove with lists containing GET, HEAD, OPTIONS, \"\", POST) followed by 7 methods on 2 paths; registration: every method string of <= 7 bytes, with and without WithTrace",
+		boundsT: "histories of <= 4 operations, method strings <= 8 bytes",
+		outside: "header mutations after the response has started (net/http ignores them on GET as well); more than 3 writes; sizes above 300000; Content-Length after an explicit WriteHeader (documented as unsupported)",
+		assume:  []string{"the underlying ResponseWriter sends the header on the first Write or when the handler returns (net/http semantics), modelled by the harness writer"},
+		stubs:   append(append([]string{}, stdStubs...), "strconv.Itoa on a symbolic int: digit-wise model, exact for 0 <= v < 10^6 (the bound is checked with the solver)"),
+	},
+	{
+		id: "C17",
+		runs: []runSpec{
+			{dir: "mux", entry: "ZZC17", quick: []int{2002, 12002, 22002, 32002}, thorough: []int{3003, 13003, 23003, 33003}},
+		},
+		covers:  []string{"accepted", "rejected"},
+		bounds:  "4 route tables; one Handle call with a pattern from a 16-pattern pool (live, name variants, '-' variants, rule variants, new, 6 malformed) and a method list of <= 2 entries from {GET, POST, HEAD, OPTIONS, unknown}, single-entry lists with every method string of <= 3 bytes; compared before/after a rejected call: Routes(), the Allow header of every live pattern (OPTIONS and 405), and the outcome of the same symbolic request (path <= 2 bytes x 3 methods); accept/reject clauses against an independent shape comparison",
+		boundsT: "method lists of <= 3 entries, probe path <= 3 bytes",
+		outside: "longer method lists; other pools; effects of a rejected call on strict URL building",
+		stubs:   stdStubs,
+	},
 }
